@@ -891,6 +891,141 @@ def r7(F, rep):
         raise AnalysisBroken("only %d conditionally written state keys with uses on an update path" % n)
 
 
+def r8(F, rep):
+    rep.rule("C03-R8", "a state block goes to the object that consumes it: in the text-format reader "
+                       "colvarmodule::read_objects_state(std::istream&), the search over variables and the search over biases "
+                       "stop only when the stream position has advanced (is.tellg() > pos) -- an object whose name does not "
+                       "match rewinds and returns a good stream, so success of read_state() alone does not mean 'found'")
+    fs = [f for f in F.func_q("colvarmodule::read_objects_state") if f.params and "istream" in f.typestr(f.params[0]["t"])]
+    if not fs:
+        raise AnalysisBroken("colvarmodule::read_objects_state(std::istream&) not found")
+    f = fs[0]
+    res = X.const_locals(f)
+    found = {}
+    for b in f.walk():
+        if b["k"] != "BreakStmt":
+            continue
+        loops = [a for a in f.ancestors(b) if a["k"] in ("ForStmt", "CXXForRangeStmt")]
+        if not loops:
+            continue
+        hdr = " ".join(X.re_strip(X.key(h, f)) for h in loops[0]["c"][:3] if h is not None) if loops[0]["k"] == "ForStmt" else X.re_strip(X.key(loops[0], f))
+        which = "colvars" if "colvars" in hdr else ("biases" if "biases" in hdr else None)
+        if which is None:
+            continue
+        # a break is a jump, not a CFG element: take the conditions of the enclosing ifs (up to the loop)
+        facts, gs = set(), []
+        for cn, pol in structural_guards(f, b):
+            if cn is None or not any(a is loops[0] for a in f.ancestors(cn)):
+                continue
+            facts |= C.facts(f, cn, pol, res)
+            gs.append((cn["i"], pol))
+        adv = any(t[0] == "cmp" and ((t[1] == ">" and "tellg()" in t[2]) or (t[1] == "<" and "tellg()" in t[3])) for t in facts)
+        found[which] = adv
+        rep.add("C03-R8", "found|%s" % which, f.loc(b), "the search over %s stops when %s" % (which, "the stream position has advanced" if adv else
+                "something else holds: %s" % [(X.text(f.nodes[c], f)[:50], p) for c, p in gs if "size()" not in X.key(f.nodes[c], f)][:3]), adv,
+                detail="with two objects sharing a state keyword (all restraints do) the block of the second is offered to the first, "
+                       "which rewinds; the search stops and the block is discarded: the second object silently restarts from scratch", func=f.q)
+    if len(found) < 2:
+        raise AnalysisBroken("read_objects_state: searches over colvars and biases not found (%s)" % sorted(found))
+
+
+def r9(F, rep):
+    rep.rule("C03-R9", "metadynamics hills survive a restart: (a) the state announces explicit hills (`keepHills on`) under exactly "
+                       "the condition under which the writer emits all of them; (b) a hill that the reader skips as already "
+                       "tabulated is still put on the off-grid list when grids are in use (the writer saves those hills for that "
+                       "purpose); (c) without grids the explicit sum starts at the first hill after a state has been read")
+    import itertools
+    gp = F.one("colvarbias_meta::get_state_params")
+    lit = [n for n in gp.walk() if n["k"] == "StringLiteral" and "keepHills" in str(n.get("v"))]
+    wr = [f for f in F.func_q("colvarbias_meta::write_state_data_template_")]
+    if not lit or not wr:
+        raise AnalysisBroken("metadynamics state writer / keepHills key not found")
+    w = wr[0]
+    # the loop that writes every hill: write_hill(os, *h) iterating this->hills
+    allh = []
+    for c in X.calls(w):
+        if X.callee_name(c) == "write_hill":
+            loops = [a for a in w.ancestors(c) if a["k"] == "ForStmt"]
+            if loops and "this.hills.begin()" in X.re_strip(X.key(loops[0]["c"][0], w)):
+                allh.append(c)
+    if not allh:
+        raise AnalysisBroken("write_state_data: loop over all hills not found")
+    ga = [(cn, pol) for cn, pol in structural_guards(gp, lit[0]) if cn is not None]
+    gb = [(cn, pol) for cn, pol in structural_guards(w, allh[0]) if cn is not None]
+    atoms = set()
+    for cn, pol in ga:
+        bool_atoms(gp, cn, None, atoms)
+    for cn, pol in gb:
+        bool_atoms(w, cn, None, atoms)
+    atoms = sorted(atoms)
+    diff = None
+    for vals in itertools.product((True, False), repeat=len(atoms)):
+        env = dict(zip(atoms, vals))
+        a = all(bool_eval(gp, cn, env, None) == pol for cn, pol in ga)
+        b = all(bool_eval(w, cn, env, None) == pol for cn, pol in gb)
+        if a != b:
+            diff = {k.replace("this.", ""): v for k, v in env.items()}
+            break
+    rep.add("C03-R9", "announce|keepHills", gp.loc(lit[0]), "`keepHills on` is written under %s; all hills are written under %s%s" % (
+        [(X.text(c, gp)[:50], p) for c, p in ga], [(X.text(c, w)[:50], p) for c, p in gb], "" if diff is None else "; they differ for %s" % diff),
+        diff is None, detail="the reader skips every hill older than the state unless the state announces explicit hills", func=gp.q)
+    rh = F.func_q("colvarbias_meta::read_hill_template_")
+    if not rh:
+        raise AnalysisBroken("read_hill_template_ not found")
+    r = rh[0]
+    res = X.const_locals(r)
+    skips = []
+    for s in r.walk():
+        if s["k"] == "ReturnStmt":
+            fs = set()
+            for cn, pol in structural_guards(r, s):
+                if cn is not None:
+                    fs |= C.facts(r, cn, pol, res)
+            if any(t[0] == "false" and "restart_keep_hills" in t[1] for t in fs):
+                skips.append(s)
+    if not skips:
+        rep.add("C03-R9", "skip|present", r.loc(), "read_hill no longer skips hills that are already tabulated", True, func=r.q)
+    for s in skips[:1]:
+        # push onto hills_off_grid inside the same branch, under use_grids
+        branch = None
+        for a in r.ancestors(s):
+            if a["k"] == "IfStmt":
+                branch = a
+                break
+        pushes = [c for c in X.calls(r, branch) if c["k"] == "CXXMemberCallExpr" and X.callee_name(c) == "push_back" and
+                  X.receiver(c) is not None and "hills_off_grid" in X.key(X.receiver(c), r)] if branch is not None else []
+        ok = False
+        for c in pushes:
+            fs = set()
+            for cn, pol in structural_guards(r, c):
+                if cn is not None:
+                    fs |= C.facts(r, cn, pol, res)
+            ok = ok or any(t[0] == "true" and "use_grids" in t[1] for t in fs)
+        rep.add("C03-R9", "skip|off-grid-kept", r.loc(s), "a hill skipped as older than the state is %s" % (
+            "still put on hills_off_grid when grids are in use" if ok else "DROPPED: nothing keeps it for the analytic sum outside the grid"), ok,
+            detail="after a restart the bias outside the grid boundaries lacks the hills deposited near them before the restart", func=r.q)
+    rs = F.func_q("colvarbias_meta::read_state_data_template_")
+    if not rs:
+        raise AnalysisBroken("read_state_data_template_ not found")
+    f = rs[0]
+    from .rules_c10 import lvalue_writes
+    ws = [(x, X.re_strip(X.key((X.kids(x)[1] if x["k"] == "BinaryOperator" else X.call_args(x)[1]), f))) for x, t in lvalue_writes(f)
+          if X.key(t, f) == "this.new_hills_begin" and x.get("op") == "="]
+    ends = [x for x, k in ws if k.endswith("hills.end()")]
+    begins = [x for x, k in ws if k.endswith("hills.begin()")]
+    ok = False
+    for b in begins:
+        fs = set()
+        for cn, pol in structural_guards(f, b):
+            if cn is not None:
+                fs |= C.facts(f, cn, pol, X.const_locals(f))
+        nog = any(t[0] == "false" and "use_grids" in t[1] for t in fs)
+        last = not any(f.cfg.can_reach(b, e) for e in ends)
+        ok = ok or (nog and last)
+    rep.add("C03-R9", "explicit-sum|start", f.loc(begins[0]) if begins else f.loc(), "after reading a state without grids new_hills_begin is set back to the first hill (%d site) after its last reset to hills.end() (%d site)" % (
+        len(begins), len(ends)), ok, detail="the explicit sum over hills would start after the hills just read: zero bias after a restart", func=f.q)
+
+
 def run(F, rep, tier):
     r1(F, rep)
     r2(F, rep)
@@ -899,3 +1034,5 @@ def run(F, rep, tier):
     r5(F, rep)
     r6(F, rep)
     r7(F, rep)
+    r8(F, rep)
+    r9(F, rep)
